@@ -5,7 +5,7 @@
 # passes without it; then stores it under /verif/seeded/<ID>/<mN>/ and records
 # which checks detect it.
 set -u
-ID=$1; M=$2; SRC=${3:-/tmp/wt11/$ID/out/$M}
+ID=$1; M=$2; SRC=${3:-/tmp/wt12/$ID/out/$M}
 ROOT=$(cd "$(dirname "$0")/.." && pwd)
 export GOFLAGS=-mod=mod GOPROXY=off GOSUMDB=off GOTOOLCHAIN=local
 D=/tmp/vseed/$ID-$M
